@@ -28,6 +28,9 @@ Ops == { XStr(<< <<65>> >>), XStr(<<>>), XStr(<< <<66>>, <<67, 32>> >>),
          XNum("xu32", <<U32Max>>), XNum("xu32", <<>>), XNum("xi32", <<I32Min, NFromInt(70000)>>),
          XFl("xf32", <<FInt(NFromInt(3))>>), XFl("xf32", <<F15, FInt(NFromInt(-300))>>),
          XFl("xf64", <<FInt(Pos(P32))>>), XFl("xf64", <<D15>>),
+         (* the float-text table: f32 0.1 0.3 16.16 1.0e10 -2.5, f64 0.1 1e21 1e-7 16.16 *)
+         XFl("xf32", <<FBits("3dcccccd"), FBits("3e99999a"), FBits("418147ae"), FBits("501502f9"), FBits("c0200000")>>),
+         XFl("xf64", <<FBits("3fb999999999999a"), FBits("444b1ae4d6e2ef50"), FBits("3e7ad7f29abcaf48"), FBits("403028f5c28f5c29")>>),
          Trunc(0), Trunc(1), Trunc(2) }
 
 V(var, items) == [var |-> var, items |-> items]
